@@ -114,7 +114,7 @@ def eps_cases(tier):
         for fn, kind in fams:
             shapes = [('s', 0)] + [('v', L_) for L_ in ((1, 4) if tier == 'quick' else (1, 2, 3, 4))] + [('ve', 3)]
             if fn in ('equal', 'notEqual'):
-                shapes += [('m', 3), ('m', 4), ('me', 2)]
+                shapes += [('m', 3), ('m', 4), ('me', 2), ('m', (4, 2)), ('m', (2, 3)), ('me', (3, 2)), ('me', (2, 4))]
             shapes += [('q', 4)]
             for sh, L_ in shapes:
                 if sh == 's':
@@ -122,11 +122,13 @@ def eps_cases(tier):
                 elif sh in ('v', 've'):
                     ty, et, oty = G.vec(L_, T), (G.vec(L_, T) if sh == 've' else sc), G.vec(L_, 'bool')
                 elif sh in ('m', 'me'):
-                    ty, et, oty = G.mat(L_, L_, T), (G.vec(L_, T) if sh == 'me' else sc), G.vec(L_, 'bool')
+                    C_, R_ = L_ if isinstance(L_, tuple) else (L_, L_)
+                    ty, et, oty = G.mat(C_, R_, T), (G.vec(C_, T) if sh == 'me' else sc), G.vec(C_, 'bool')
                 else:
                     ty, et, oty = G.quat(T), sc, G.vec(4, 'bool')
-                k = K('eps_%s_%s_%s%d' % (fn, sc.tag, sh, L_), [Par('o', oty, False), Par('a', ty), Par('b', ty), Par('e', et)], '*o = %s(*a, *b, *e);' % fn, cfg)
-                name = '%s(%s,eps)<%s>' % (fn, {'s': 'scalar', 'v': 'vec%d' % L_, 've': 'vec%d,vec eps' % L_, 'm': 'mat%d' % L_, 'me': 'mat%d,vec eps' % L_, 'q': 'quat'}[sh], T)
+                Ls = ('%dx%d' % L_) if isinstance(L_, tuple) else str(L_)
+                k = K('eps_%s_%s_%s%s' % (fn, sc.tag, sh, Ls), [Par('o', oty, False), Par('a', ty), Par('b', ty), Par('e', et)], '*o = %s(*a, *b, *e);' % fn, cfg)
+                name = '%s(%s,eps)<%s>' % (fn, {'s': 'scalar', 'v': 'vec%s' % Ls, 've': 'vec%s,vec eps' % Ls, 'm': 'mat%s' % Ls, 'me': 'mat%s,vec eps' % Ls, 'q': 'quat'}[sh], T)
 
                 def judge(ctx, k=k, ty=ty, et=et, oty=oty, sh=sh, L_=L_, kind=kind, name=name):
                     e = ctx.compile_error(k)
@@ -139,7 +141,7 @@ def eps_cases(tier):
                     for olane, ooff in oty.lanes.items():
                         got = bool_lane(it, 'o', ooff)
                         if sh in ('m', 'me'):
-                            comps = [(L.in_term('a', ty, (olane, r)), L.in_term('b', ty, (olane, r))) for r in range(L_)]
+                            comps = [(L.in_term('a', ty, (olane, r)), L.in_term('b', ty, (olane, r))) for r in range(L_[1] if isinstance(L_, tuple) else L_)]
                         elif sh == 'q':
                             c = 'xyzw'[olane]
                             comps = [(L.in_term('a', ty, c), L.in_term('b', ty, c))]
@@ -193,7 +195,7 @@ def ulp_cases(tier):
     it_ = G.scalar('int')
     for T in ('float', 'double'):
         sc, bo = G.scalar(T), G.scalar('bool')
-        shapes = [('s', 0), ('v', 1), ('v', 4), ('vn', 3), ('m', 3), ('mn', 2)] + ([('v', 2), ('v', 3), ('m', 4), ('m', 2)] if tier == 'thorough' else [])
+        shapes = [('s', 0), ('v', 1), ('v', 4), ('vn', 3), ('m', 3), ('mn', 2), ('m', (4, 2)), ('m', (2, 3)), ('mn', (3, 2)), ('mn', (2, 4))] + ([('v', 2), ('v', 3), ('m', 4), ('m', 2), ('m', (3, 4)), ('mn', (4, 3))] if tier == 'thorough' else [])
         for fn, neg in (('equal', False), ('notEqual', True)):
             for sh, L_ in shapes:
                 if sh == 's':
@@ -201,9 +203,11 @@ def ulp_cases(tier):
                 elif sh in ('v', 'vn'):
                     ty, nt, oty = G.vec(L_, T), (G.vec(L_, 'int') if sh == 'vn' else it_), G.vec(L_, 'bool')
                 else:
-                    ty, nt, oty = G.mat(L_, L_, T), (G.vec(L_, 'int') if sh == 'mn' else it_), G.vec(L_, 'bool')
-                k = K('ulp_%s_%s_%s%d' % (fn, sc.tag, sh, L_), [Par('o', oty, False), Par('a', ty), Par('b', ty), Par('n', nt)], '*o = %s(*a, *b, *n);' % fn, cfg)
-                name = '%s(%s,ULPs)<%s>' % (fn, {'s': 'scalar', 'v': 'vec%d' % L_, 'vn': 'vec%d,ivec' % L_, 'm': 'mat%d' % L_, 'mn': 'mat%d,ivec' % L_}[sh], T)
+                    C_, R_ = L_ if isinstance(L_, tuple) else (L_, L_)
+                    ty, nt, oty = G.mat(C_, R_, T), (G.vec(C_, 'int') if sh == 'mn' else it_), G.vec(C_, 'bool')
+                Ls = ('%dx%d' % L_) if isinstance(L_, tuple) else str(L_)
+                k = K('ulp_%s_%s_%s%s' % (fn, sc.tag, sh, Ls), [Par('o', oty, False), Par('a', ty), Par('b', ty), Par('n', nt)], '*o = %s(*a, *b, *n);' % fn, cfg)
+                name = '%s(%s,ULPs)<%s>' % (fn, {'s': 'scalar', 'v': 'vec%s' % Ls, 'vn': 'vec%s,ivec' % Ls, 'm': 'mat%s' % Ls, 'mn': 'mat%s,ivec' % Ls}[sh], T)
 
                 def judge(ctx, k=k, ty=ty, nt=nt, oty=oty, sh=sh, L_=L_, neg=neg, name=name):
                     e = ctx.compile_error(k)
@@ -214,7 +218,7 @@ def ulp_cases(tier):
                     for olane, ooff in oty.lanes.items():
                         got = bool_lane(it, 'o', ooff)
                         if sh in ('m', 'mn'):
-                            comps = [(L.in_term('a', ty, (olane, r)), L.in_term('b', ty, (olane, r))) for r in range(L_)]
+                            comps = [(L.in_term('a', ty, (olane, r)), L.in_term('b', ty, (olane, r))) for r in range(L_[1] if isinstance(L_, tuple) else L_)]
                         else:
                             comps = [(L.in_term('a', ty, olane), L.in_term('b', ty, olane))]
                         n = L.in_term('n', nt, olane if nt.kind == 'vec' else 0)
